@@ -55,6 +55,8 @@ def bvu(inner):
 DENSE = {r"SelectIndex.*5build.*\.1$": 50, r"SelectIndex.*5build.*\.0$": 4, r"prefix|c01_": 50}
 DENSE7 = {r"SelectIndex.*5build.*\.1$": 50, r"SelectIndex.*5build.*\.0$": 8, r"prefix|c01_": 50}
 
+SPARSE = {r"SelectIndex.*5build.*\.1$": 272, r"SelectIndex.*5build.*\.0$": 4, r"c01_": 272}
+
 PROPS["C01"] = dict(
     module="c01",
     bounds=("rank directory: all contents of 9/17 words; select index: all contents of 2-4 words at concrete rates {1,2,3,64,100,256,4096}; "
@@ -139,32 +141,32 @@ PROPS["C03"] = dict(
         H("c03_get_n6_last1m", tier="thorough", timeout=900, unwindset=EFU, bounds="n=6, last=2^20"),
         H("c03_get_n8_last1000", tier="thorough", timeout=900, unwindset=EFU, bounds="n=8, last=1000"),
         H("c03_get_n8_last7", tier="thorough", timeout=900, unwindset=EFU, bounds="n=8, last=7 (dense)"),
-        H("c03_pred_n4_last1000", tier="quick", timeout=900, unwindset=PRED4, bounds="n=4, last=1000, all q"),
-        H("c03_pred_n4_lastmax", tier="thorough", timeout=900, unwindset=PRED4, bounds="n=4, last=u32::MAX, all q"),
-        H("c03_pred_n6_last5", tier="thorough", timeout=900, unwindset=PRED4, bounds="n=6, last=5 (duplicates forced)"),
-        H("c03_pred_n8_last1000", tier="thorough", timeout=1800, unwindset=PRED8, bounds="n=8, last=1000"),
-        H("c03_iter_n4_last1000", tier="quick", timeout=600, unwindset=EFU, bounds="n=4 iteration"),
-        H("c03_iter_n6_last1m", tier="thorough", timeout=900, unwindset=EFU, bounds="n=6 iteration"),
-        H("c03_iter_n5_last4", tier="thorough", timeout=600, unwindset=EFU, bounds="n=5 dense iteration"),
-        H("c03_cursor_current_n4_last1000", tier="quick", timeout=1200, unwindset=efk(8), bounds="one-step induction: current_n4_last1000"),
-        H("c03_cursor_adv1_n4_last1000", tier="quick", timeout=1200, unwindset=efk(8), bounds="one-step induction: adv1_n4_last1000"),
-        H("c03_cursor_advby_n4_last1000", tier="quick", timeout=1200, unwindset=efk(8), bounds="one-step induction: advby_n4_last1000"),
-        H("c03_cursor_seek_n4_last1000", tier="quick", timeout=1200, unwindset=efk(8), bounds="one-step induction: seek_n4_last1000"),
-        H("c03_cursor_adv1_n4_lastmax", tier="thorough", timeout=1200, unwindset=efk(8), bounds="one-step induction: adv1_n4_lastmax"),
-        H("c03_cursor_advby_n4_lastmax", tier="thorough", timeout=1200, unwindset=efk(8), bounds="one-step induction: advby_n4_lastmax"),
-        H("c03_cursor_adv1_n6_last5", tier="thorough", timeout=1200, unwindset=efk(10), bounds="one-step induction: adv1_n6_last5"),
-        H("c03_cursor_advby_n6_last5", tier="thorough", timeout=1200, unwindset=efk(10), bounds="one-step induction: advby_n6_last5"),
-        H("c03_cursor_seek_n6_last5", tier="thorough", timeout=1200, unwindset=efk(10), bounds="one-step induction: seek_n6_last5"),
-        H("c03_cursor_adv1_n8_last1000", tier="thorough", timeout=1200, unwindset=efk(12), bounds="one-step induction: adv1_n8_last1000"),
-        H("c03_cursor_advby_n8_last1000", tier="thorough", timeout=1200, unwindset=efk(12), bounds="one-step induction: advby_n8_last1000"),
-        H("c03_cursor_adv1_n6_last300", tier="thorough", timeout=1200, unwindset=efk(10), bounds="one-step induction: adv1_n6_last300"),
-        H("c03_cursor_advby_n6_last300", tier="thorough", timeout=1200, unwindset=efk(10), bounds="one-step induction: advby_n6_last300"),
-        H("c03_cursor_exhausted_n4_last1000", tier="quick", timeout=1200, unwindset=efk(8), bounds="any op after exhaustion"),
-        H("c03_cursor_skeleton300_seek", tier="thorough", timeout=2700, unwindset=SK300, bounds="300 concrete elements, any start, seek(any t)"),
-        H("c03_cursor_skeleton300_adv1", tier="thorough", timeout=2700, unwindset=SK300, bounds="300 concrete elements, any start, advance_one"),
-        H("c03_cursor_skeleton300_advby", tier="thorough", timeout=2700, unwindset=SK300, bounds="300 concrete elements, any start, advance_by(k<=70)"),
-        H("c03_get_pred_skeleton300", tier="thorough", timeout=2700, unwindset=SK300, bounds="300 concrete elements, get(any i), predecessor(any q)"),
-        H("c03_cursor0_and_empty", tier="quick", timeout=600, unwindset=EFU, bounds="cursor()==cursor_from(0); empty sequence"),
+        H("c03_pred_n4_last1000", tier="quick", mem_gb=24, timeout=900, unwindset=PRED4, bounds="n=4, last=1000, all q"),
+        H("c03_pred_n4_lastmax", tier="thorough", mem_gb=24, timeout=900, unwindset=PRED4, bounds="n=4, last=u32::MAX, all q"),
+        H("c03_pred_n6_last5", tier="thorough", mem_gb=24, timeout=900, unwindset=PRED4, bounds="n=6, last=5 (duplicates forced)"),
+        H("c03_pred_n8_last1000", tier="thorough", mem_gb=24, timeout=1800, unwindset=PRED8, bounds="n=8, last=1000"),
+        H("c03_iter_n4_last1000", tier="quick", mem_gb=24, timeout=600, unwindset=EFU, bounds="n=4 iteration"),
+        H("c03_iter_n6_last1m", tier="thorough", mem_gb=24, timeout=900, unwindset=EFU, bounds="n=6 iteration"),
+        H("c03_iter_n5_last4", tier="thorough", mem_gb=24, timeout=600, unwindset=EFU, bounds="n=5 dense iteration"),
+        H("c03_cursor_current_n4_last1000", tier="quick", mem_gb=24, timeout=1200, unwindset=efk(8), bounds="one-step induction: current_n4_last1000"),
+        H("c03_cursor_adv1_n4_last1000", tier="quick", mem_gb=24, timeout=1200, unwindset=efk(8), bounds="one-step induction: adv1_n4_last1000"),
+        H("c03_cursor_advby_n4_last1000", tier="quick", mem_gb=24, timeout=1200, unwindset=efk(8), bounds="one-step induction: advby_n4_last1000"),
+        H("c03_cursor_seek_n4_last1000", tier="quick", mem_gb=24, timeout=1200, unwindset=efk(8), bounds="one-step induction: seek_n4_last1000"),
+        H("c03_cursor_adv1_n4_lastmax", tier="thorough", mem_gb=24, timeout=1200, unwindset=efk(8), bounds="one-step induction: adv1_n4_lastmax"),
+        H("c03_cursor_advby_n4_lastmax", tier="thorough", mem_gb=24, timeout=1200, unwindset=efk(8), bounds="one-step induction: advby_n4_lastmax"),
+        H("c03_cursor_adv1_n6_last5", tier="thorough", mem_gb=24, timeout=1200, unwindset=efk(10), bounds="one-step induction: adv1_n6_last5"),
+        H("c03_cursor_advby_n6_last5", tier="thorough", mem_gb=24, timeout=1200, unwindset=efk(10), bounds="one-step induction: advby_n6_last5"),
+        H("c03_cursor_seek_n6_last5", tier="thorough", mem_gb=24, timeout=1200, unwindset=efk(10), bounds="one-step induction: seek_n6_last5"),
+        H("c03_cursor_adv1_n8_last1000", tier="thorough", mem_gb=24, timeout=1200, unwindset=efk(12), bounds="one-step induction: adv1_n8_last1000"),
+        H("c03_cursor_advby_n8_last1000", tier="thorough", mem_gb=24, timeout=1200, unwindset=efk(12), bounds="one-step induction: advby_n8_last1000"),
+        H("c03_cursor_adv1_n6_last300", tier="thorough", mem_gb=24, timeout=1200, unwindset=efk(10), bounds="one-step induction: adv1_n6_last300"),
+        H("c03_cursor_advby_n6_last300", tier="thorough", mem_gb=24, timeout=1200, unwindset=efk(10), bounds="one-step induction: advby_n6_last300"),
+        H("c03_cursor_exhausted_n4_last1000", tier="quick", mem_gb=24, timeout=1200, unwindset=efk(8), bounds="any op after exhaustion"),
+        H("c03_cursor_skeleton300_seek", tier="thorough", mem_gb=24, timeout=2700, unwindset=SK300, bounds="300 concrete elements, any start, seek(any t)"),
+        H("c03_cursor_skeleton300_adv1", tier="thorough", mem_gb=24, timeout=2700, unwindset=SK300, bounds="300 concrete elements, any start, advance_one"),
+        H("c03_cursor_skeleton300_advby", tier="thorough", mem_gb=24, timeout=2700, unwindset=SK300, bounds="300 concrete elements, any start, advance_by(k<=70)"),
+        H("c03_get_pred_skeleton300", tier="thorough", mem_gb=24, timeout=2700, unwindset=SK300, bounds="300 concrete elements, get(any i), predecessor(any q)"),
+        H("c03_cursor0_and_empty", tier="quick", mem_gb=24, timeout=600, unwindset=EFU, bounds="cursor()==cursor_from(0); empty sequence"),
         H("c03_witness_must_fail", tier="thorough", kind="witness", timeout=600, unwindset=EFU),
     ],
 )
@@ -563,6 +565,8 @@ PROPS["C08"] = dict(
 U16 = {r"spec_find2|spec_spaces|spec_newline|spec_block_end|spec_anchor|c16_": 74,
        r"find_quote_or_escape|find_single_quote|count_leading_spaces|find_newline|find_block_scalar_end|parse_anchor_name": 74}
 
+U16DEEP = {r"spec_block_end|c16_": 52, r"find_block_scalar_end_(sse2|avx2).*[.]0$": 36, r"find_block_scalar_end_(sse2|avx2).*[.][12]$": 34, r"find_block_scalar_end_(sse2|avx2).*[.]3$": 5, r"find_block_scalar_end_scalar": 50}
+
 PROPS["C16"] = dict(
     module="c16",
     bounds=("kernel half only: every public yaml::simd kernel (find_quote_or_escape, find_single_quote, count_leading_spaces, find_newline, find_block_scalar_end, "
@@ -591,13 +595,13 @@ PROPS["C16"] = dict(
         H("c16_spaces_n33_s1_any", timeout=1800, unwindset=U16, tier="thorough", bounds="all buffers of that length at that start; other arguments symbolic", replay="trace"),
         H("c16_spaces_n15_s0_any", timeout=1800, unwindset=U16, tier="thorough", bounds="all buffers of that length at that start; other arguments symbolic", replay="trace"),
         H("c16_spaces_n16_s16_any", timeout=1800, unwindset=U16, tier="quick", bounds="all buffers of that length at that start; other arguments symbolic", replay="trace"),
-        H("c16_block_end_n40_s0_avx2", timeout=1800, unwindset=U16, tier="thorough", bounds="all buffers of that length at that start; other arguments symbolic"),
-        H("c16_block_end_n40_s3_avx2", timeout=2700, unwindset=U16, tier="thorough", bounds="all buffers of that length at that start; other arguments symbolic"),
-        H("c16_block_end_n66_s1_avx2", timeout=1800, unwindset=U16, tier="thorough", bounds="all buffers of that length at that start; other arguments symbolic"),
-        H("c16_block_end_n40_s0_sse2", timeout=1800, unwindset=U16, tier="thorough", bounds="all buffers of that length at that start; other arguments symbolic"),
-        H("c16_block_end_n34_s2_sse2", timeout=1800, unwindset=U16, tier="quick", bounds="all buffers of that length at that start; other arguments symbolic"),
-        H("c16_block_end_n20_s0_any", timeout=1800, unwindset=U16, tier="quick", bounds="all buffers of that length at that start; other arguments symbolic", replay="trace"),
-        H("c16_block_end_n12_s12_any", timeout=1800, unwindset=U16, tier="quick", bounds="all buffers of that length at that start; other arguments symbolic", replay="trace"),
+        H("c16_block_end_n40_s0_avx2", timeout=1800, mem_gb=24, unwindset=U16, tier="thorough", bounds="all buffers of that length at that start; other arguments symbolic"),
+        H("c16_block_end_n40_s3_avx2", timeout=2700, mem_gb=24, unwindset=U16, tier="thorough", bounds="all buffers of that length at that start; other arguments symbolic"),
+        H("c16_block_end_n66_s1_avx2", timeout=1800, mem_gb=24, unwindset=U16, tier="thorough", bounds="all buffers of that length at that start; other arguments symbolic"),
+        H("c16_block_end_n40_s0_sse2", timeout=1800, mem_gb=24, unwindset=U16, tier="thorough", bounds="all buffers of that length at that start; other arguments symbolic"),
+        H("c16_block_end_n34_s2_sse2", timeout=1800, mem_gb=24, unwindset=U16, tier="quick", bounds="all buffers of that length at that start; other arguments symbolic"),
+        H("c16_block_end_n20_s0_any", timeout=1800, mem_gb=24, unwindset=U16, tier="quick", bounds="all buffers of that length at that start; other arguments symbolic", replay="trace"),
+        H("c16_block_end_n12_s12_any", timeout=1800, mem_gb=24, unwindset=U16, tier="quick", bounds="all buffers of that length at that start; other arguments symbolic", replay="trace"),
         H("c16_anchor_n40_s0_avx2", timeout=1800, unwindset=U16, tier="thorough", bounds="all buffers of that length at that start; other arguments symbolic"),
         H("c16_anchor_n40_s1_avx2", timeout=1800, unwindset=U16, tier="quick", bounds="all buffers of that length at that start; other arguments symbolic"),
         H("c16_anchor_n70_s2_avx2", timeout=1800, unwindset=U16, tier="thorough", bounds="all buffers of that length at that start; other arguments symbolic"),
@@ -609,10 +613,8 @@ PROPS["C16"] = dict(
         H("c16_classify_n40_o25_cr_any", timeout=1800, unwindset=U16, tier="quick", bounds="all buffers of that length at that start; other arguments symbolic", replay="trace"),
         H("c16_quote_n40_s3_avx2", fs="scalar-yaml", timeout=1800, unwindset=U16, tier="quick", bounds="scalar-yaml build: pure scalar kernel, same harness"),
         H("c16_spaces_n40_s5_avx2", fs="scalar-yaml", timeout=1800, unwindset=U16, tier="quick", bounds="scalar-yaml build: pure scalar kernel, same harness"),
-        H("c16_block_end_n20_s0_any", fs="scalar-yaml", timeout=1800, unwindset=U16, tier="quick", bounds="scalar-yaml build: pure scalar kernel, same harness"),
+        H("c16_block_end_n20_s0_any", fs="scalar-yaml", timeout=1800, mem_gb=24, unwindset=U16, tier="quick", bounds="scalar-yaml build: pure scalar kernel, same harness"),
         H("c16_anchor_n40_s1_avx2", fs="scalar-yaml", timeout=1800, unwindset=U16, tier="quick", bounds="scalar-yaml build: pure scalar kernel, same harness"),
-        H("c16_block_end_deep_n48_s0_sse2", timeout=2700, unwindset=U16, tier="quick", bounds="48 bytes, min_indent 15..=24, SSE2"),
-        H("c16_block_end_deep_n48_s1_avx2", timeout=2700, unwindset=U16, tier="thorough", bounds="48 bytes, min_indent 15..=24, AVX2"),
         H("c16_witness_must_fail", kind="witness", tier="thorough", timeout=900, unwindset=U16),
     ],
 )
